@@ -117,16 +117,13 @@ Fixpoint read_dir (fuel : nat) (c : ctl) (colon at_ : bool) (ps : list param) : 
         else let prev := ch_at (c_str c) (c_pos c - 1) in            (* c.str[c.pos-2] after c.pos++ *)
              read_dir f c1 colon at_ (if ascii_eqb prev "~" || ascii_eqb prev "," then ps ++ [PNone] else ps)
       else if ascii_eqb ch "#" then read_dir f c1 colon at_ (ps ++ [PInt (nargs c - c_apos c)])
-      else if ascii_eqb ch "v" || (ascii_eqb ch "V" && negb b) then
-        (* site: V is v by the definition; the Go switch only knows the lower-case letter *)
-        let c1 := add_taint c1 (ascii_eqb ch "V") in
+      else if ascii_eqb ch "v" || ascii_eqb ch "V" then
         if (0 <=? c_apos c)%Z
         then match arg_at c with
              | Some v => read_dir f (set_apos c1 (c_apos c + 1)) colon at_ (ps ++ [PVal v])
              | None => RdErr (c_taint c1)                              (* missing argument *)
              end
         else read_dir f c1 colon at_ (ps ++ [PNone])
-      else if ascii_eqb ch "V" then RdErr true                         (* invalid directive *)
       else if ascii_eqb ch "'" then
         (* site: the Go code reads up to the next byte of the scan map and hands that to ReadCharacter;
            the definition is: the single character after the quote *)
